@@ -3031,6 +3031,8 @@ def tendiag(
         shape = parse_shape(shape)
         constructed_shape = tuple(max(N, dim) for dim in shape)
     X = tenzeros(constructed_shape, order=order)
+    if N == 0:
+        return X  # nothing to place: assignment through an empty subscript array is not a no-op
     subs = np.tile(np.arange(0, N)[:, None], (len(constructed_shape),))
     X[subs] = elements
     return X
